@@ -6,6 +6,7 @@ import time
 from fractions import Fraction
 
 from harness import common as C
+from harness import history as H
 from harness import impl, trees
 from harness.props import c06
 
@@ -175,6 +176,8 @@ def near(a, iv, rtol=1e-9, atol=1e-10):
         return None
     lo, hi = iv
     tol = Fraction(rtol) * max(abs(lo), abs(hi)) + Fraction(atol)
+    if not math.isfinite(a):
+        return False
     return lo - tol <= Fraction(a) <= hi + tol
 
 
@@ -285,6 +288,39 @@ def run(tier, seed, replay=None):
     for c, o in zip(cases, outs):
         if c["kind"] == "trilexp" and not isinstance(o, Exception):
             rep.case(dict(c=c), nontrivial=True)
+    # ---- same-object histories: the value reported for the CURRENT parameters == fresh object's
+    t0 = time.time()
+    hrng = random.Random(seed + 17)
+    nh, hist_found = 0, {}
+    okc = [c for c, o in zip(cases, outs) if not isinstance(o, Exception)
+           and (c["kind"] in ("ratio", "shift") or c.get("via_parameter"))]
+    hrng.shuffle(okc)
+    for c in okc[:(60 if tier == "quick" else 400)]:
+        try:
+            if c["kind"] in ("ratio", "shift"):
+                obj = c06.build(dict(c, kind=c["kind"]))
+                reads = [("node_heights", lambda o: o.node_heights), ("branch_lengths", lambda o: o.branch_lengths())]
+            else:
+                from torchtree.core.parameter import TransformedParameter
+                tr = make_transform(c)
+                d = {"id": "tp", "type": "TransformedParameter",
+                     "transform": type(tr).__module__ + "." + type(tr).__name__, "x": impl.param_json("u", c["x"])}
+                if c["kind"] == "affine":
+                    d["parameters"] = {"loc": c["loc"], "scale": c["scale"]}
+                obj = H.tracked(TransformedParameter, d)
+                reads = [("tensor", lambda o: o.tensor)]
+        except Exception:
+            continue
+        fs = H.run(obj, lambda o: float(o().sum().detach()), hrng, steps=2, reads=reads)
+        nh += 1
+        for f in fs:
+            k = f"C07:history:{c['kind']}"
+            hist_found.setdefault(k, (k, f"after the history {f['history']} the log-Jacobian reported by the same object is "
+                                         f"{f['on_same_object']} but a freshly built one reports {f['fresh_object']}",
+                                      dict(case=c, history=f)))
+    for f in hist_found.values():
+        rep.violation(*f)
+    rep.timings["histories"] = round(time.time() - t0, 2)
     rep.rule = ("random domain points for cumsum / cumsum-exp / softplus / cumsum-softplus / log / torch exp, sigmoid, "
                 "affine (dimension 1..7, also through TransformedParameter.from_json), triangular-exp (inverse only: it "
                 "reports no log-det), log-rate-difference and ratio / increment node-height transforms on random, "
